@@ -227,6 +227,10 @@ class Run:
         if os.environ.get('VERIF_DEBUG'):
             print('  DEBUG worker wall_s:', sorted([(r.get('wall_s'), r.get('task')) for r in self.results],
                                                   key=lambda t: -(t[0] or 0))[:4])
+            for x in inconclusive[:3]:
+                print('  DEBUG inconclusive:', str(x)[:1500])
+            for x in self.diag[:3]:
+                print('  DEBUG diag:', str(x)[:1500])
             brk = {}
             for v in unlisted:
                 k = (v.get('symptom'), tuple(sorted(set(v.get('flags', [])) & S.EXOTIC)))
